@@ -46,6 +46,7 @@ type RawContract struct {
 	GenName  string // name of generated clause function
 	Reveal   []string
 	NoSubtype bool
+	Slow     map[string]int
 }
 
 type RawSpec struct {
@@ -234,6 +235,16 @@ func parseContractFile(path string) (*ContractFile, error) {
 				cur.Reveal = append(cur.Reveal, strings.Fields(strings.ReplaceAll(rest, ",", " "))...)
 			case "nosubtype":
 				cur.NoSubtype = true
+			case "slow":
+				// slow <label> <seconds>: solver budget override for one clause
+				var lab string
+				var secs int
+				if _, err := fmt.Sscanf(rest, "%s %d", &lab, &secs); err == nil {
+					if cur.Slow == nil {
+						cur.Slow = map[string]int{}
+					}
+					cur.Slow[lab] = secs
+				}
 			case "trusted":
 				cur.Trusted = true
 			case "inline":
